@@ -14,7 +14,7 @@ META = {
     "explanation": "the Newton iteration itself is not symbolic (convergence is outside the claim); decided instead: the affine field IS an exact solution of the discrete equations on every mesh, i.e. if the solver "
     "converges it converges to a state satisfying the same equations as the affine field",
     "bounds": [
-        "distorted concrete meshes with interior points for hex8/20/27, quad4/8/9, tet4, straight-edged tet10, tri3, tri6 (3-D and plane strain); symbolic affine map Fbar (9 / 4 variables)",
+        "distorted concrete meshes with interior points for hex8/20/27, quad4/8/9, tet4, straight-edged tet10, tri3, tri6 (3-D and plane strain), and CURVED quad8/quad9/hex20/hex27 cells (mid points moved independently of the corners) with the templates' default rules; symbolic affine map Fbar (9 / 4 variables)",
         "(a) nodal values u = (Fbar - I) X give F = Fbar at every quadrature point (1e-9); (b) with a uniform stress Pbar (9 symbolic components; this is what any material returns at a uniform F) the internal "
         "nodal forces vanish at every interior point (patch test); (c) the real dof.uniaxial / dof.biaxial on a 1 x 2 x 4 block (distorted, boundary-aligned) for every choice of loaded axes, with and "
         "without symmetry planes, symbolic moves: the prescribed unknowns and values are the restriction of a homogeneous stretch, the moved faces / symmetry planes are complete, all free unknowns are in "
@@ -47,6 +47,10 @@ def patch_mesh(kind):
         m.points[:] = P + d
         return m
 
+    if kind.endswith("c"):
+        # curved cells: mid-edge / mid-face / mid-volume points are moved independently of the corners (after their insertion)
+        m = patch_mesh(kind[:-1])
+        return distort(m, True)
     base = {"quad4": lambda: fem.Rectangle(n=3), "hex8": lambda: fem.Cube(n=3), "tri3": lambda: fem.Rectangle(n=3).triangulate(), "tet4": lambda: fem.Cube(n=3).triangulate()}
     if kind in base:
         return distort(base[kind](), False)
@@ -66,6 +70,7 @@ def patch_mesh(kind):
 
 
 REG = {
+    "quad8c": fem.RegionQuadraticQuad, "quad9c": fem.RegionBiQuadraticQuad, "hex20c": fem.RegionQuadraticHexahedron, "hex27c": fem.RegionTriQuadraticHexahedron,
     "quad4": fem.RegionQuad, "quad8": fem.RegionQuadraticQuad, "quad9": fem.RegionBiQuadraticQuad, "tri3": fem.RegionTriangle, "tri6": fem.RegionQuadraticTriangle,
     "hex8": fem.RegionHexahedron, "hex20": fem.RegionQuadraticHexahedron, "hex27": fem.RegionTriQuadraticHexahedron, "tet4": fem.RegionTetra, "tet10": fem.RegionQuadraticTetra,
 }
@@ -261,7 +266,7 @@ class _null:
 
 def cases(tier):
     out = []
-    kinds = ["quad4", "tri3", "hex8", "tet4", "quad8", "tri6"] + (["quad9", "tet10", "hex20", "hex27"] if tier == "thorough" else [])
+    kinds = ["quad4", "tri3", "hex8", "tet4", "quad8", "tri6", "quad9c", "hex27c"] + (["quad9", "tet10", "hex20", "hex27", "quad8c", "hex20c"] if tier == "thorough" else [])
     for k in kinds:
         out.append(("patch", case_patch, {"kind": k}))
     lcs = [("quad4", "uniaxial", (0,), True), ("quad4", "uniaxial", (1,), False), ("quad4", "biaxial", (0, 1), True), ("quad4", "biaxial", (1, 0), False),
